@@ -1,6 +1,7 @@
 package replicator
 
 import "sync"
+import "berty.tech/go-orbit-db/verifhook"
 
 type replicationInfo struct {
 	progress int
@@ -12,6 +13,7 @@ func (r *replicationInfo) SetProgress(i int) {
 	r.lock.Lock()
 	defer r.lock.Unlock()
 
+	verifhook.At("status.set", r, "progress", r.progress, i)
 	r.progress = i
 }
 
@@ -19,6 +21,7 @@ func (r *replicationInfo) SetMax(i int) {
 	r.lock.Lock()
 	defer r.lock.Unlock()
 
+	verifhook.At("status.set", r, "max", r.max, i)
 	r.max = i
 }
 
@@ -40,6 +43,7 @@ func (r *replicationInfo) Reset() {
 	r.lock.Lock()
 	defer r.lock.Unlock()
 
+	verifhook.At("status.reset", r)
 	r.progress = 0
 	r.max = 0
 }
